@@ -78,6 +78,23 @@ def jOptNames : Option (List Nm) → Json
 def mapImage {β γ} (f : β → γ) (im : Image β) : Image γ :=
   { names := im.names, img := im.img.map (·.map (·.map f)), times := im.times }
 
+def mapReturned {β γ} (f : β → γ) (r : Returned β) : Returned γ :=
+  { names := r.names, img := r.img.map (·.map (·.map f)), params := r.params }
+
+/-- a return value: `params` is `null` when the bare array was returned -/
+def jReturned (st : List (List Rat) → Json) : Except Err (Returned Json) → Json
+  | .error e => jErr e
+  | .ok r => jObj [("names", jList jName r.names), ("img", jList (jList (jList id)) r.img),
+                   ("params", match r.params with
+                     | none => Json.null
+                     | some t => jObj [("times", jTimes t), ("scantime", st t)])]
+
+/-- one call of an entry point: the function and the options the caller passes (`null` = omitted) -/
+def parseCall (j : Json) : R (String × CallOpts) := do
+  pure (← getStr j "fn",
+        { methods := ← getOptField (asList parseMethod) j "methods", cps := ← getOptField asBool j "cps",
+          useAcq := ← getOptField asBool j "use_acq", full := ← getOptField asBool j "full" })
+
 def handle (op : String) (req : Json) : R Json := do
   match op with
   | "c02.import" =>
@@ -157,7 +174,38 @@ def handle (op : String) (req : Json) : R Json := do
       | some l, some s => jBool (acqLogHyp l (sortByInt sampleKey s))
       | _, _ => Json.null
     let jNull (b : Bool) (j : Json) : Json := if b then j else Json.null
+    -- the entry points called with explicit / omitted options (PewModel/Agilent.lean, section 9)
+    let calls ← getList parseCall req "calls"
+    let evalCall (c : String × CallOpts) : R Json := do
+      let (fn, o) := c
+      if o.cpsV && !rv then throw "cps needs rational values"
+      -- binary import: bit tokens for counts, exact rationals for counts per second
+      let binOf (spc : Bool) : Except Err (Returned Json) :=
+        if o.cpsV then
+          ((if spc then loadBinaryCallSpec m filesR miSpec cps o else loadBinaryCall m filesR mi cps o).map (mapReturned jRat))
+        else
+          ((if spc then loadBinaryCallSpec m filesT miSpec (fun _ im => im) o
+            else loadBinaryCall m filesT mi (fun _ im => im) o).map (mapReturned jInt))
+      let csvOf (spc : Bool) : Except Err (Returned Json) :=
+        (if spc then loadCsvCallSpec m filesT acqNames (miSpec.map (·.str)) o
+         else loadCsvCall m filesT acqNames o).map (mapReturned jRat)
+      let side (spc : Bool) : R Json := do
+        let st := if spc then stSpec else stModel
+        match fn with
+        | "load_binary" => pure (jObj [("ret", jReturned st (binOf spc)), ("via", jStr "binary")])
+        | "load_csv" => pure (jObj [("ret", jReturned st (csvOf spc)), ("via", jStr "csv")])
+        | "load" =>
+          let viaCsv := match binOf spc with | .ok _ => false | .error _ => true
+          pure (jObj [("ret", jReturned st (load (binOf spc) (csvOf spc))), ("via", jStr (if viaCsv then "csv" else "binary"))])
+        | "collect_datafiles" =>
+          match o.methods with
+          | none => throw "collect_datafiles needs methods"
+          | some ms => pure (jObj [("ret", jOptNames (collect m spc ms)), ("via", jStr "collect")])
+        | s => throw s!"bad fn {s}"
+      pure (jObj [("model", ← side false), ("spec", ← side true)])
+    let callsJ ← calls.mapM evalCall
     pure (jObj [
+      ("calls", Json.arr callsJ.toArray),
       ("collect", jObj [("model", coll false), ("spec", coll true)]),
       ("masses", jObj [("model", (mi.map jMass).getD (jErr .key)), ("spec", jMass miSpec)]),
       ("binary", jObj [("model", jImage jInt stModel binM), ("spec", jImage jInt stSpec binS)]),
